@@ -119,6 +119,9 @@ def install_fault(sim, fault):
             sim.stop_proc(p)
             sim.add_timer(sim.now + fault.get('duration', 0.05), lambda: sim.cont_proc(p))
         elif kind == 'gate':
+            if fault.get('hold'):
+                # the triggering thread stays exactly here until a signal is pending on its process (or the hold budget expires)
+                sim.hold(t)
             sim.gate_open('fault')
         elif kind == 'stall':
             # the triggering thread is descheduled for a while (slow node / slow link)
